@@ -86,3 +86,32 @@ func labelCfg(o *run.Obs, c core.Config) {
 }
 
 func runtimeGosched() { time.Sleep(50 * time.Microsecond) }
+
+// enumWide yields deterministic histories that build single nodes with 127..300
+// entries (element counts on the varint boundaries of the binary format) in
+// both formats, then persist, reload and keep operating.
+func enumWide(tier string, shard, nshards int, yield func(HistCase) bool) (bool, string) {
+	i := 0
+	for _, format := range core.Formats {
+		for _, n := range []int{127, 128, 129, 255, 256, 300} {
+			for _, val := range []string{core.VInt, core.VLong} {
+				i++
+				if i%nshards != shard {
+					continue
+				}
+				layers := make([]uint8, 320) // all layer 0: one node holds every entry
+				cfg := core.Config{BF: 255, Format: format, Key: core.KLK, Val: val, Cache: "none", Marshaler: "json", LKLayers: layers}
+				var fill []core.Op
+				for k := 0; k < n; k++ {
+					fill = append(fill, core.Op{Kind: core.OpInsert, K: k, V: k % 6})
+				}
+				prog := []core.Op{{Kind: core.OpPersist}, {Kind: core.OpReload}, {Kind: core.OpIter}, {Kind: core.OpDelete, K: 5}, {Kind: core.OpInsertNew, K: 1, V: 2},
+					{Kind: core.OpPersist}, {Kind: core.OpReloadJSON, N: 1}, {Kind: core.OpIter}}
+				if !yield(HistCase{Cfg: cfg, Fill: fill, Prog: prog}) {
+					return false, ""
+				}
+			}
+		}
+	}
+	return false, "wide nodes: single nodes of 127/128/129/255/256/300 entries (bf 255, user keys of layer 0) x both formats x int and boundary-length string values, persisted, reloaded and modified"
+}
